@@ -399,6 +399,18 @@ struct Monitor {
         for (auto &e : evs) { apply(e, CALL_CLEANUP, li, ls, evs); if (dead) return; }
     }
 
+    //! the root was deleted without a closing cleanup(): its destructor must have taken every DESCENDANT down
+    //! through its hooks (the root's own onStop/onCleanup are unreachable from its own destructor)
+    void on_destroyed_without_cleanup() {
+        if (dead) return;
+        for (auto it = start_stack.rbegin(); it != start_stack.rend(); ++it)
+            if (*it != 0 || is_virtual(0))
+                return fail("destroy/descendant-left-started", vh::fmt("the root was deleted while running; module %d was deleted with a successful onStart that was never followed by onStop", *it));
+        for (auto it = init_stack.rbegin(); it != init_stack.rend(); ++it)
+            if (*it != 0 || is_virtual(0))
+                return fail("destroy/descendant-left-initialised", vh::fmt("the root was deleted while initialised; module %d was deleted with a successful onInit that was never followed by onCleanup", *it));
+    }
+
     //! after the last explicit cleanup() and the destruction of the tree
     void on_end() {
         if (dead) return;
